@@ -182,6 +182,49 @@ theorem evaluate_spec {D d : Nat} (hD : D ≤ 63) (hd : d ≤ D) (p : List K) (h
     polyEvaluate (mkTables D) p d pt = eval (fun i : Fin 6 => pt.getD i.val 0) (toMv (mkTables D) d p) :=
   polyEvaluate_eq_eval hD hd p hp pt hpt
 
+/-- **multiply_spec** (`_polynomial_multiply`, graded lists): for well-formed inputs (blocks of `psi[6,d]` slots for
+`d = 0..N`) the result is well-formed and its block of degree `r ≤ N` is `Σ_{d1+d2=r} P[d1]·Q[d2]` — the product truncated
+at `max_deg` — for every scheduler of the nested `_poly_mul` calls.  The `np.any` shortcuts and shape tests are part of
+the model. -/
+theorem multiply_spec {D N : Nat} (hD : D ≤ 63) (hN : N ≤ D) (σ : Nat → List (List Nat))
+    (hσ : ∀ n, (σ n).flatten.Perm (List.range n)) (P Q : GPoly K) (hP : WF P N) (hQ : WF Q N) :
+    WF (polynomialMultiply (mkTables D) σ P Q N) N ∧ ∀ r, r ≤ N →
+      toMv (mkTables D) r ((polynomialMultiply (mkTables D) σ P Q N).getD r [])
+        = ∑ x ∈ Finset.antidiagonal r, toMv (mkTables D) x.1 (P.getD x.1 []) * toMv (mkTables D) x.2 (Q.getD x.2 []) :=
+  toMv_polynomialMultiply hD hN σ hσ P Q hP hQ
+
+/-- **power_spec** (`_polynomial_power`): binary exponentiation with truncation after every product computes the
+truncated power.  `Ser P = Σ_r t^r · P[r]` is the graded list read as a power series in a grading variable `t`
+(coefficient `r` = the polynomial of block `r`, blocks above `N` dropped) and `tr N` cuts a series after `t^N`; the
+statement is `Ser (P^k computed) = tr N ((Ser P)^k)`, for every exponent `k` (including `k = 0 ↦ 1`), every scheduler. -/
+theorem power_spec {D N : Nat} (hD : D ≤ 63) (hN : N ≤ D) (σ : Nat → List (List Nat))
+    (hσ : ∀ n, (σ n).flatten.Perm (List.range n)) (P : GPoly K) (hP : WF P N) (k : Nat) :
+    WF (polynomialPower (mkTables D) σ P k N) N ∧
+    Ser (mkTables D) N (polynomialPower (mkTables D) σ P k N) = tr N ((Ser (mkTables D) N P) ^ k) :=
+  Ser_polynomialPower hD hN σ hσ P hP k
+
+/-- the same bookkeeping for one product: `Ser (P·Q computed) = tr N (Ser P · Ser Q)` -/
+theorem multiply_spec_series {D N : Nat} (hD : D ≤ 63) (hN : N ≤ D) (σ : Nat → List (List Nat))
+    (hσ : ∀ n, (σ n).flatten.Perm (List.range n)) (P Q : GPoly K) (hP : WF P N) (hQ : WF Q N) :
+    Ser (mkTables D) N (polynomialMultiply (mkTables D) σ P Q N) = tr N (Ser (mkTables D) N P * Ser (mkTables D) N Q) :=
+  Ser_multiply hD hN σ hσ P Q hP hQ
+
+/-- **differentiate_spec** (`_polynomial_differentiate`, graded): the result is well-formed for `max(max_deg-1,0)` and its
+block `r` is `∂/∂x_v` of block `r+1` of the input (any scheduler; `np.any` shortcut and shape guards included) -/
+theorem differentiate_spec {D N : Nat} (hD : D ≤ 63) (hN : N ≤ D) (σ : Nat → List (List Nat))
+    (hσ : ∀ n, (σ n).flatten.Perm (List.range n)) (P : GPoly K) (hP : WF P N) (v : Fin 6) :
+    WF (polynomialDifferentiate (mkTables D) σ P v.val N) (N - 1) ∧ ∀ r, r + 1 ≤ N →
+      toMv (mkTables D) r ((polynomialDifferentiate (mkTables D) σ P v.val N).getD r [])
+        = pderiv v (toMv (mkTables D) (r + 1) (P.getD (r + 1) [])) :=
+  toMv_polynomialDifferentiate hD hN σ hσ P hP v
+
+/-- **evaluate_spec** (graded, `_polynomial_evaluate`): the value of the whole polynomial `Σ_d P[d]` at the point -/
+theorem evaluate_graded_spec {D N : Nat} (hD : D ≤ 63) (hN : N ≤ D) (P : GPoly K) (hP : WF P N) (pt : List K)
+    (hpt : pt.length = 6) :
+    polynomialEvaluate (mkTables D) P pt
+      = eval (fun i : Fin 6 => pt.getD i.val 0) (∑ d ∈ Finset.range (N + 1), toMv (mkTables D) d (P.getD d [])) :=
+  polynomialEvaluate_eq_eval hD hN P hP pt hpt
+
 end semiring
 
 section ring
@@ -232,5 +275,19 @@ example : polyDiff (K := Int) (mkTables 2) [3, 6, 0, 0, 0, 0, 0, 0, 0, 0, 0, 0, 
 
 example : polyPoisson (K := Int) (mkTables 2) (fun n => [List.range n]) [1, 0, 0, 0, 0, 0] 1 [0, 0, 0, 1, 0, 0] 1 = [1] := by
   decide +kernel
+
+/-- a well-formed graded polynomial (`1 + x₀`, max_deg 1) and the truncated square `1 + 2x₀` -/
+example : WF ([[1], [1, 0, 0, 0, 0, 0]] : GPoly Int) 1 := by
+  refine ⟨rfl, fun d hd => ?_⟩
+  have : d = 0 ∨ d = 1 := by omega
+  rcases this with rfl | rfl <;> decide
+
+example : polynomialMultiply (K := Int) (mkTables 1) (fun n => [List.range n]) [[1], [1, 0, 0, 0, 0, 0]] [[1], [1, 0, 0, 0, 0, 0]] 1
+    = [[1], [2, 0, 0, 0, 0, 0]] := by decide +kernel
+
+/-- `(1 + x₀)³` truncated at degree 2: `1 + 3x₀ + 3x₀²` -/
+example : polynomialPower (K := Int) (mkTables 2) (fun n => [List.range n])
+    [[1], [1, 0, 0, 0, 0, 0], [0, 0, 0, 0, 0, 0, 0, 0, 0, 0, 0, 0, 0, 0, 0, 0, 0, 0, 0, 0, 0]] 3 2
+    = [[1], [3, 0, 0, 0, 0, 0], [3, 0, 0, 0, 0, 0, 0, 0, 0, 0, 0, 0, 0, 0, 0, 0, 0, 0, 0, 0, 0]] := by decide +kernel
 
 end HitenModel.C06
